@@ -66,6 +66,16 @@ func ip6Packet(src, dst netip.Addr, nh, hop byte, payload []byte) []byte {
 	return append(h, payload...)
 }
 
+// ip6Behind: an ICMPv6 message directly after the IPv6 header, or behind an 8-byte hop-by-hop
+// extension header carrying the 6 option bytes `hbh`.
+func ip6Behind(hbh []byte, src, dst netip.Addr, hop byte, msg []byte) []byte {
+	if len(hbh) == 0 {
+		return ip6Packet(src, dst, 58, hop, msg)
+	}
+	ext := append([]byte{58, 0}, hbh[:6]...)
+	return ip6Packet(src, dst, 0, hop, append(ext, msg...))
+}
+
 // icmp4Msg: type, code, checksum, 4 "rest of header" bytes, body.
 func icmp4Msg(typ, code byte, rest [4]byte, body []byte) []byte {
 	m := append([]byte{typ, code, 0, 0, rest[0], rest[1], rest[2], rest[3]}, body...)
@@ -113,6 +123,7 @@ type replyForm struct {
 	Kind      string // te | du | echo | synack | rst | rstack | sack
 	Quote     quoteStyle
 	OuterOpts []byte // outer IPv4 options (multiple of 4)
+	OuterHBH  []byte // IPv6: options of an outer hop-by-hop extension header (6 bytes: an 8-byte header)
 	Code      byte   // ICMP code (du)
 	QTTL      int    // rewritten quoted TTL (-1 = keep)
 	QTOS      int    // rewritten quoted TOS (-1 = keep)
@@ -161,6 +172,14 @@ func catalogueFor(variant string, v6 bool) []replyForm {
 					f.OuterOpts = o
 					fs = append(fs, f)
 				}
+			} else {
+				// the ICMPv6 error travels behind a hop-by-hop extension header (PadN / router alert + Pad1s)
+				for i, o := range [][]byte{{1, 4, 0, 0, 0, 0}, {5, 2, 0, 0, 0, 0}} {
+					f = base
+					f.Name += "/outer-hbh" + string(rune('a'+i))
+					f.OuterHBH = o
+					fs = append(fs, f)
+				}
 			}
 			if variant != "icmp" {
 				f = base
@@ -181,6 +200,8 @@ func catalogueFor(variant string, v6 bool) []replyForm {
 		fs = append(fs, replyForm{Name: "echo", Kind: "echo", QTTL: -1, QTOS: -1, QCksum: -1})
 		if !v6 {
 			fs = append(fs, replyForm{Name: "echo/outer-opts", Kind: "echo", OuterOpts: rr, QTTL: -1, QTOS: -1, QCksum: -1})
+		} else {
+			fs = append(fs, replyForm{Name: "echo/outer-hbh", Kind: "echo", OuterHBH: []byte{1, 4, 0, 0, 0, 0}, QTTL: -1, QTOS: -1, QCksum: -1})
 		}
 	case "udp":
 		addTE("te", 0)
@@ -301,7 +322,7 @@ func (f replyForm) encode(fl flowInfo, probe []byte, from netip.Addr, ttl int, s
 		if f.Kind == "du" {
 			typ = 1
 		}
-		return ip6Packet(from, fl.Local, 58, 60, icmp6Msg(from, fl.Local, typ, f.Code, [4]byte{}, q))
+		return ip6Behind(f.OuterHBH, from, fl.Local, 60, icmp6Msg(from, fl.Local, typ, f.Code, [4]byte{}, q))
 	case "echo":
 		if !fl.V6 {
 			ihl := int(probe[0]&0xf) * 4
@@ -312,7 +333,7 @@ func (f replyForm) encode(fl flowInfo, probe []byte, from netip.Addr, ttl int, s
 		}
 		var rest [4]byte
 		copy(rest[:], probe[44:48])
-		return ip6Packet(from, fl.Local, 58, 57, icmp6Msg(from, fl.Local, 129, 0, rest, probe[48:]))
+		return ip6Behind(f.OuterHBH, from, fl.Local, 57, icmp6Msg(from, fl.Local, 129, 0, rest, probe[48:]))
 	case "synack", "rst", "rstack":
 		flags := map[string]byte{"synack": 0x12, "rst": 0x04, "rstack": 0x14}[f.Kind]
 		ack := seqOfProbe + 1
@@ -418,12 +439,19 @@ func fieldsOf(pkt []byte, kind string, v6 bool) []perturbation {
 	add("outer.nh", 6, 1)
 	add("outer.src", 8, 16)
 	add("outer.dst", 24, 16)
-	add("icmp.type", 40, 1)
-	add("icmp.code", 41, 1)
+	io := 40 // offset of the ICMPv6 header (behind a hop-by-hop header if there is one)
+	if len(pkt) > 41 && pkt[6] == 0 {
+		add("hbh.nh", 40, 1)
+		add("hbh.len", 41, 1)
+		add("hbh.opt", 42, 2)
+		io = 40 + 8*(int(pkt[41])+1)
+	}
+	add("icmp.type", io, 1)
+	add("icmp.code", io+1, 1)
 	switch kind {
 	case "te", "du":
-		add("icmp.unused", 44, 4)
-		qs := 48
+		add("icmp.unused", io+4, 4)
+		qs := io + 8
 		add("q.ver", qs, 1)
 		add("q.plen", qs+4, 2)
 		add("q.nh", qs+6, 1)
@@ -434,8 +462,8 @@ func fieldsOf(pkt []byte, kind string, v6 bool) []perturbation {
 		add("q.l4.w2", qs+44, 2)
 		add("q.l4.w3", qs+46, 2)
 	case "echo":
-		add("icmp.id", 44, 2)
-		add("icmp.seq", 46, 2)
+		add("icmp.id", io+4, 2)
+		add("icmp.seq", io+6, 2)
 	}
 	return ps
 }
